@@ -110,6 +110,23 @@ def c12_2(ctx):
     _refcheck(ctx, VSS, "make_variable_handler.f", "ss_variable_handler", "truncated-payload:variable")
     _refcheck(ctx, VSS, "ScriptStreamer.get_opcode", "ss_get_opcode", "malformed-flag")
     _refcheck(ctx, BSS, "make_opcode_variable_list.make_variable_decoder.decode_OP_PUSHDATA", "bss_decode_pushdata", "truncated-length-field")
+    # the length decoder of PUSHDATA1/2/4 reports a length field cut off by the end of the script as size None (the variable
+    # handler turns that into `malformed`): it has such an exit, and the exit is reached by something that fails on short input
+    d = ctx.func(BSS, "make_opcode_variable_list.make_variable_decoder.decode_OP_PUSHDATA")
+    wd = sym.walk(ctx, d)
+    none_exits = [x for x in wd.exits if x.kind == "return" and isinstance(x.value, ast.Tuple) and x.value.elts and isinstance(x.value.elts[0], ast.Constant) and x.value.elts[0].value is None]
+    if not none_exits:
+        ctx.bad("truncated-length-field-reported", ctx.where(d), "decode_OP_PUSHDATA has no exit that reports the size as None: a PUSHDATA whose length field is cut off by the end of the script decodes as a valid push")
+    else:
+        ok = False
+        for x in none_exits:
+            ops = [o for o in (gi.f_opaques(x.cond) if x.cond not in (True, False) else []) if isinstance(o, str)]
+            if any(not o.startswith("exc@") for o in ops):
+                ok = True       # an explicit test (length comparison) selects it
+            for t in [n for n in ast.walk(d.node) if isinstance(n, ast.Try)]:
+                if any(isinstance(c, ast.Call) and norm(c.func).endswith("unpack") for b in t.body for c in ast.walk(b)):
+                    ok = True   # struct.unpack raises struct.error on a short slice
+        ctx.check(ok, "truncated-length-field-reported", ctx.where(d), "decode_OP_PUSHDATA reports size None only from an exception handler whose body cannot fail on a short length field")
     e = ctx.func("pycoin/vm/VM.py", "VM.eval_instruction")
     w = sym.walk(ctx, e)
     rz = [x for x in w.exits if x.kind == "raise"]
